@@ -15,6 +15,9 @@ def wrapper(T, inv=None, error_transparent=True):
         s+=f"//@ method (*{T}).Error\n//@   props C10\n//@   ensures result == msg(self.cause)\n"
     s+=f"//@ method (*{T}).Cause\n//@   props C07 C10 C14\n//@   ensures result == self.cause\n"
     s+=f"//@ method (*{T}).Unwrap\n//@   props C07 C10 C14\n//@   ensures result == self.cause\n"
+    if T not in ('withIssueLink',):
+        nxt = 'nil' if T=='withNewMessage' else 'self.cause'
+        s+=f"//@ method (*{T}).SafeFormatError\n//@   props C09\n//@   requires p != nil\n//@   ensures result == {nxt}\n"
     return s
 PK={
  'assert':[('withAssertionFailure',None,True)],
